@@ -204,6 +204,7 @@ def exec_S(source):
         'violations': sim.violations,
         'records': sim.records,
         'clones': sim.clones,
+        'op_recipe': sim.op_recipe,
         'counters': sim.counters,
         'digest': h.hexdigest(),
         'events': sim.events if os.environ.get('VERIF_KEEP_EVENTS') else None,
@@ -211,6 +212,7 @@ def exec_S(source):
         'sim_seconds': C.travel,
         'sched_keys': sorted(sim.sched_keys),
         'point_lines': sorted(sim.point_lines),
+        'alias_names': dict(sim.alias_names),
         'funcs_by_name': dict((k, sorted(v)) for k, v in sim.funcs_by_name.items()),
         'nontrivial': bool(sim.counters.get('fired.nest', 0) + sim.counters.get('fired.cancel', 0) +
                            sim.counters.get('switches', 0) + sum(C.counts.get(k, 0) for k in ('straddle', 'step', 'jump', 'stall'))),
@@ -276,11 +278,28 @@ def exec_solo(jobs, cfg, order_seed):
     random.Random(order_seed).shuffle(idx)
     out = {}
     for i in idx:
-        op_id, name, blob = jobs[i]
+        op_id, name, blob = jobs[i][:3]
+        recipe = jobs[i][3] if len(jobs[i]) > 3 else None
         e = ENTRIES[name]
         recv, args, kwargs = clone_loads(blob)
         base = _call(e, recv, args, kwargs)
         twin = None
+        if recipe and not os.environ.get('VERIF_NO_TWIN'):
+            # history twin: the receiver is rebuilt by replaying its own constructor and documented mutators
+            try:
+                e0 = ENTRIES[recipe[0][0]]
+                r0, a0, k0 = clone_loads(recipe[0][1])
+                obj = ops.invoke(e0.kind, e0.target, r0, a0, k0)
+                for nm, bl in recipe[1:]:
+                    e1 = ENTRIES[nm]
+                    _, a1, k1 = clone_loads(bl)
+                    ops.invoke(e1.kind, e1.target, obj, a1, k1)
+                _, a2, k2 = clone_loads(blob)
+                twin = _call(e, obj, a2, k2)
+            except Exception:
+                twin = None
+            out[op_id] = (base[0], base[1], base[2], twin)
+            continue
         if not os.environ.get('VERIF_NO_TWIN'):
             recv, args, kwargs = clone_loads(blob)
             n = 0
@@ -339,7 +358,7 @@ def run_plan(source, timeout=120.0):
     boot()
     t0 = _perf()
     sres = fork_call(exec_S, (source,), timeout)
-    jobs = [(r['id'], r['name'], sres['clones'][r['id']]) for r in sres['records']
+    jobs = [(r['id'], r['name'], sres['clones'][r['id']], sres['op_recipe'].get(r['id'])) for r in sres['records']
             if r['outcome'] in ('ok', 'exc') and r['id'] in sres['clones']]
     order_seed = source.seed ^ 0x5DEECE66D
     solo = fork_call(exec_solo, (jobs, source.cfg, order_seed), timeout)
@@ -371,4 +390,5 @@ def run_plan(source, timeout=120.0):
     sres['rejects'] = [(names[k], x[1][1], x[1][2]) for k, x in sorted(solo.items()) if x[0] == 'exc']
     sres['wall'] = _perf() - t0
     del sres['clones']
+    del sres['op_recipe']
     return sres
